@@ -174,3 +174,32 @@ func keyString(k any) string {
 	}
 	return fmt.Sprintf("v:%v", k)
 }
+
+// MapSiteName returns a line-independent name of a map-order site:
+// "file|Func#k" (k-th rewritten range in that function).
+func MapSiteName(i int32) string {
+	if i < 0 || int(i) >= len(MapSites) {
+		return "site#" + strconv.Itoa(int(i))
+	}
+	s := MapSites[i]
+	file, rest, ok := strings.Cut(s, ":")
+	if !ok {
+		return s
+	}
+	_, fn, ok := strings.Cut(rest, "|")
+	if !ok {
+		return s
+	}
+	return file + "|" + fn
+}
+
+// ReachedSites lists the sites whose MapKeys was called at least once under c.
+func (c *MapConfig) ReachedSites() []int32 {
+	var out []int32
+	for i, n := range c.calls {
+		if n > 0 {
+			out = append(out, int32(i))
+		}
+	}
+	return out
+}
